@@ -4,7 +4,7 @@ from . import corpus
 from . import tracecheck
 from .limbs import num
 
-C03 = {"StarvingMeansNoFeed", "NotBelowRound1", "FloorAtT", "WithinDemand", "ZeroAfterShutoff", "DemandZeroAfterShutoff",
+C03 = {"ThresholdAsConfigured", "StarvingMeansNoFeed", "NotBelowRound1", "FloorAtT", "WithinDemand", "ZeroAfterShutoff", "DemandZeroAfterShutoff",
        "DemandNonNeg", "ThresholdInRange"}
 C16 = {"LegalOrder", "SolverOptimal", "ValidatorsPass", "Completed", "PercentFedFiniteNonNeg"}
 
@@ -20,7 +20,9 @@ def run_trace(r):
     pct = need / 100.0
     n = inp["NMONTHS"]
     hdr.update(T=inp["T"], store=r["lps"][0]["consts"]["store"])
-    ev.append(dict(ev="Start", T=num(inp["T"]), demF=[num(x, pct) for x in r["demand"]["feed"]],
+    o = r["job"]["options"]
+    tcfg = float(o.get("MINIMUM_PERCENT_FED_BEFORE_NONHUMAN_CONSUMPTION_ALLOWED", 10.0 if "after_10_percent_fed" in str(o.get("shutoff")) else 100.0))
+    ev.append(dict(ev="Start", T=num(inp["T"]), Tcfg=num(tcfg), demF=[num(x, pct) for x in r["demand"]["feed"]],
                    demB=[num(x, pct) for x in r["demand"]["biofuel"]], shutF=inp["feed_shutoff"], shutB=inp["biofuel_shutoff"]))
     interp = {i["round"]: i for i in r["interp"]}
     lps = {lp["round"]: lp for lp in r["lps"]}
